@@ -1,6 +1,6 @@
 (* C15 -- proofs over Coq's classical reals about the exact special points of
    Real::sin / Real::cos (model: Elem/Model.v).  Never extracted.          *)
-From FendV Require Import Base.Prelude Elem.Bridge Elem.Model.
+From FendV Require Import Base.Prelude Elem.Bridge Elem.Model Elem.ModelProofs.
 From Coq Require Import QArith Qreals Reals Lra Lia.
 Open Scope R_scope.
 
@@ -17,23 +17,21 @@ Lemma Q2R_inject_Z : forall z, Q2R (inject_Z z) = IZR z.
 Proof. intro z. unfold Q2R, inject_Z. simpl. lra. Qed.
 
 (* ------------------------------------------------------------------ *)
-(* BigRat::try_as_usize *)
+(* a BigRat that is a natural number; try_as_usize *)
 
-Lemma rat_try_as_usize_spec : forall q k,
-  rat_try_as_usize q = Some k -> (q == inject_Z (Z.of_N k))%Q /\ (k < 2 ^ 64)%N.
+Lemma rat_as_nat_spec : forall q k,
+  rat_as_nat q = Some k -> (q == inject_Z (Z.of_N k))%Q.
 Proof.
-  intros q k. unfold rat_try_as_usize.
+  intros q k. unfold rat_as_nat.
   destruct (Z.ltb_spec (Qnum q) 0) as [Hneg|Hnn]; [discriminate|].
   set (n := Z.to_N (Qnum q)). set (d := Npos (Qden q)).
   assert (Hn : Z.of_N n = Qnum q) by (unfold n; now rewrite Z2N.id).
   destruct (N.eqb_spec d 1) as [Hd1|Hd1].
-  - destruct (N.ltb_spec n usize_limit) as [Hlt|Hge]; [|discriminate].
-    intro H. injection H as <-. split; [|exact Hlt].
+  - intro H. injection H as <-.
     unfold Qeq, inject_Z. simpl. unfold d in Hd1. injection Hd1 as Hd1. rewrite Hd1, Hn. lia.
   - set (g := N.gcd n d).
     destruct (N.eqb_spec (d / g) 1) as [Hdg|Hdg]; simpl; [|discriminate].
-    destruct (N.ltb_spec (n / g) usize_limit) as [Hlt|Hge]; [|discriminate].
-    intro H. injection H as <-. split; [|exact Hlt].
+    intro H. injection H as <-.
     assert (Hg0 : g <> 0%N).
     { unfold g. intro Hc. apply N.gcd_eq_0_r in Hc. unfold d in Hc. discriminate. }
     destruct (N.gcd_divide_r n d) as [c Hc]. fold g in Hc.
@@ -43,6 +41,44 @@ Proof.
     rewrite Hng. rewrite Hdg' in Hdg. subst c. rewrite N.mul_1_l in Hc.
     unfold Qeq, inject_Z. simpl. rewrite <- Hn, Hc'.
     change (Z.pos (Qden q)) with (Z.of_N d). rewrite Hc. rewrite N2Z.inj_mul. lia.
+Qed.
+
+Lemma rat_try_as_usize_spec : forall q k,
+  rat_try_as_usize q = Some k -> (q == inject_Z (Z.of_N k))%Q /\ (k < 2 ^ 64)%N.
+Proof.
+  intros q k. unfold rat_try_as_usize.
+  destruct (rat_as_nat q) as [n|] eqn:Hn; [|discriminate].
+  destruct (N.ltb_spec n usize_limit) as [Hlt|_]; [|discriminate].
+  intro H. injection H as <-. split; [apply rat_as_nat_spec; exact Hn|exact Hlt].
+Qed.
+
+(* completeness: every representation of a natural number is accepted *)
+Lemma rat_as_nat_hit : forall q (k : N), (q == inject_Z (Z.of_N k))%Q -> rat_as_nat q = Some k.
+Proof.
+  intros q k Hq. unfold rat_as_nat.
+  assert (Hnn : (0 <= Qnum q)%Z).
+  { unfold Qeq, inject_Z in Hq. simpl in Hq. nia. }
+  destruct (Z.ltb_spec (Qnum q) 0) as [Hc|_]; [lia|].
+  set (n := Z.to_N (Qnum q)). set (d := N.pos (Qden q)).
+  assert (Hn : n = (k * d)%N).
+  { unfold n, d. unfold Qeq, inject_Z in Hq. simpl in Hq.
+    apply N2Z.inj. rewrite Z2N.id by lia. rewrite N2Z.inj_mul. simpl Z.of_N at 2. lia. }
+  assert (Hd0 : d <> 0%N) by (unfold d; discriminate).
+  destruct (N.eqb_spec d 1) as [Hd1|Hd1].
+  - rewrite Hn, Hd1, N.mul_1_r. reflexivity.
+  - assert (Hgcd : N.gcd n d = d).
+    { rewrite Hn. rewrite N.gcd_comm, (N.mul_comm k d). apply N.gcd_mul_diag_l. apply N.le_0_l. }
+    rewrite Hgcd. rewrite N.div_same by exact Hd0.
+    simpl (negb (1 =? 1)%N). cbv iota.
+    rewrite Hn, N.div_mul by exact Hd0. reflexivity.
+Qed.
+
+Lemma rat_try_as_usize_small : forall r : N, (r < 2 ^ 64)%N ->
+  rat_try_as_usize (inject_Z (Z.of_N r)) = Some r.
+Proof.
+  intros r Hr. unfold rat_try_as_usize.
+  rewrite (rat_as_nat_hit _ r) by reflexivity.
+  destruct (N.ltb_spec r usize_limit) as [_|Hc]; [reflexivity|unfold usize_limit in Hc; lia].
 Qed.
 
 (* ------------------------------------------------------------------ *)
@@ -97,23 +133,18 @@ Proof. intro k. apply N.mod_lt. discriminate. Qed.
 
 (* the value the table returns is the sine of that multiple of pi: for every
    rational n (any size, any representation) *)
-Lemma sin_pi_table_sound : forall n v,
-  sin_pi_table n = Some v -> Q2R v = sin (Q2R n * PI).
+(* the table is right for every integer k = 6n *)
+Lemma sin_table_of_sound : forall k v,
+  sin_table_of k = Some v -> Q2R v = sin (IZR (Z.of_N k) * PI / 6).
 Proof.
-  intros n v. unfold sin_pi_table.
-  destruct (rat_try_as_usize (n * 6)) as [k|] eqn:Hk; [|discriminate].
-  apply rat_try_as_usize_spec in Hk. destruct Hk as [Hk _].
-  apply Qeq_eqR in Hk. rewrite Q2R_mult, Q2R_inject_Z in Hk.
-  change 6%Q with (inject_Z 6) in Hk. rewrite Q2R_inject_Z in Hk.
-  replace (Q2R n * PI) with (IZR (Z.of_N k) * PI / 6) by (rewrite <- Hk; field).
-  rewrite sin_k_pi6_mod.
+  intros k v. unfold sin_table_of. rewrite sin_k_pi6_mod.
   pose proof (mod12_cases k) as Hlt.
   assert (Hm6 : (k mod 6 = (k mod 12) mod 6)%N).
   { change 12%N with (6 * 2)%N. rewrite N.mod_mul_r by discriminate.
     rewrite N.add_mod, (N.mul_comm 6), N.mod_mul, N.add_0_r by discriminate.
     now rewrite !N.mod_mod by discriminate. }
   rewrite Hm6. clear Hm6.
-  set (r := (k mod 12)%N) in *. clearbody r. clear Hk k n.
+  set (r := (k mod 12)%N) in *. clearbody r. clear k.
   assert (Hr : (r = 0 \/ r = 1 \/ r = 2 \/ r = 3 \/ r = 4 \/ r = 5 \/ r = 6 \/ r = 7
                \/ r = 8 \/ r = 9 \/ r = 10 \/ r = 11)%N) by lia.
   repeat (destruct Hr as [Hr|Hr]); subst r; intro H; vm_compute in H;
@@ -126,6 +157,49 @@ Proof.
   - rewrite Q2R_mhalf. symmetry. apply sin_7pi6.
   - rewrite Q2R_m1. symmetry. apply sin_9pi6.
   - rewrite Q2R_mhalf. symmetry. apply sin_11pi6.
+Qed.
+
+Lemma sin_table_of_mod12 : forall k, sin_table_of (k mod 12) = sin_table_of k.
+Proof.
+  intro k. unfold sin_table_of.
+  assert (H6 : ((k mod 12) mod 6 = k mod 6)%N).
+  { change 12%N with (6 * 2)%N. rewrite N.mod_mul_r by discriminate.
+    rewrite N.add_mod, (N.mul_comm 6), N.mod_mul, N.add_0_r by discriminate.
+    now rewrite !N.mod_mod by discriminate. }
+  rewrite H6, !N.mod_mod by discriminate. reflexivity.
+Qed.
+
+Lemma Q2R_of_nat_multiple : forall n (k : N), (n * 6 == inject_Z (Z.of_N k))%Q ->
+  Q2R n * PI = IZR (Z.of_N k) * PI / 6.
+Proof.
+  intros n k Hk. apply Qeq_eqR in Hk. rewrite Q2R_mult, Q2R_inject_Z in Hk.
+  change 6%Q with (inject_Z 6) in Hk. rewrite Q2R_inject_Z in Hk.
+  rewrite <- Hk. field.
+Qed.
+
+(* the value a table returns is the sine of that multiple of pi: for every
+   rational n (any size, any representation) -- the current table and the one
+   before fix commit 06c1b45 *)
+Lemma sin_pi_table_sound : forall n v,
+  sin_pi_table n = Some v -> Q2R v = sin (Q2R n * PI).
+Proof.
+  intros n v. unfold sin_pi_table.
+  destruct (rat_as_nat (n * 6)) as [k|] eqn:Hk; [|discriminate].
+  apply rat_as_nat_spec in Hk.
+  rewrite rat_try_as_usize_small.
+  - rewrite sin_table_of_mod12. intro H. apply sin_table_of_sound in H.
+    rewrite (Q2R_of_nat_multiple n k Hk). exact H.
+  - pose proof (mod12_cases k). lia.
+Qed.
+
+Lemma sin_pi_table_old_sound : forall n v,
+  sin_pi_table_old n = Some v -> Q2R v = sin (Q2R n * PI).
+Proof.
+  intros n v. unfold sin_pi_table_old.
+  destruct (rat_try_as_usize (n * 6)) as [k|] eqn:Hk; [|discriminate].
+  apply rat_try_as_usize_spec in Hk. destruct Hk as [Hk _].
+  intro H. apply sin_table_of_sound in H.
+  rewrite (Q2R_of_nat_multiple n k Hk). exact H.
 Qed.
 
 (* ------------------------------------------------------------------ *)
@@ -150,19 +224,22 @@ Proof.
 Qed.
 
 (* ------------------------------------------------------------------ *)
-(* soundness of the exact flag of Real::sin *)
+(* soundness of the exact flag of Real::sin, for any sound table that
+   answers 0 at 0 *)
+
+Lemma zero_times_six : forall n, (n == 0)%Q -> (n * 6 == inject_Z (Z.of_N 0))%Q.
+Proof. intros n Hn. rewrite Hn. reflexivity. Qed.
 
 Lemma sin_pi_table_zero : forall n, (n == 0)%Q -> sin_pi_table n = Some 0%Q.
 Proof.
-  intros n Hn. unfold sin_pi_table, rat_try_as_usize.
-  assert (Hnum : Qnum (n * 6) = 0%Z).
-  { unfold Qeq in Hn. simpl in Hn. simpl. lia. }
-  rewrite Hnum. simpl (0 <? 0)%Z. cbv iota. simpl (Z.to_N 0).
-  set (d := N.pos (Qden (n * 6))).
-  destruct (N.eqb_spec d 1); [reflexivity|].
-  rewrite N.gcd_0_l. rewrite N.div_same by (unfold d; discriminate).
-  simpl (negb (1 =? 1)%N). cbv iota.
-  rewrite N.div_0_l by (unfold d; discriminate). reflexivity.
+  intros n Hn. unfold sin_pi_table.
+  rewrite (rat_as_nat_hit _ 0 (zero_times_six n Hn)). reflexivity.
+Qed.
+
+Lemma sin_pi_table_old_zero : forall n, (n == 0)%Q -> sin_pi_table_old n = Some 0%Q.
+Proof.
+  intros n Hn. unfold sin_pi_table_old, rat_try_as_usize.
+  rewrite (rat_as_nat_hit _ 0 (zero_times_six n Hn)). reflexivity.
 Qed.
 
 Lemma rat_fn_sin_exact : forall Fo q v,
@@ -170,7 +247,7 @@ Lemma rat_fn_sin_exact : forall Fo q v,
 Proof.
   intros Fo q v. unfold rat_fn. destruct (qeq q 0) eqn:Hq.
   - intros H _. injection H as <-. split; [now apply Qeq_bool_eq|reflexivity].
-  - intros H. injection H as <-. simpl. discriminate.
+  - intros H He. apply br_not_exact in H. congruence.
 Qed.
 
 Lemma qlt_spec : forall a b, qlt a b = true <-> (a < b)%Q.
@@ -178,30 +255,44 @@ Proof.
   intros a b. unfold qlt. rewrite Qlt_alt. destruct (a ?= b)%Q; split; congruence.
 Qed.
 
+Section TableSound.
+  Variable tbl : Q -> option Q.
+  Hypothesis tbl_sound : forall n v, tbl n = Some v -> Q2R v = sin (Q2R n * PI).
+  Hypothesis tbl_zero : forall n, (n == 0)%Q -> tbl n = Some 0%Q.
+
+  Lemma sin_with_pi_exact_sound : forall Fo n v,
+    real_sin_with tbl Fo (RPi n) = Ok (mkEx v true) -> real_val v = sin (Q2R n * PI).
+  Proof.
+    intros Fo n v. unfold real_sin_with.
+    set (neg := qlt n 0). set (n' := if neg then (- n)%Q else n).
+    assert (Hn' : Q2R n' = if neg then - Q2R n else Q2R n).
+    { unfold n'. destruct neg; [apply Q2R_opp|reflexivity]. }
+    destruct (tbl n') as [t|] eqn:Ht.
+    - intro H. injection H as <-. apply tbl_sound in Ht.
+      rewrite Hn' in Ht. simpl. destruct neg.
+      + rewrite Q2R_opp, Ht. replace (- Q2R n * PI) with (- (Q2R n * PI)) by lra.
+        rewrite sin_neg. lra.
+      + exact Ht.
+    - destruct (rat_fn Fo Fsin (n' * pi_model)) as [w| |] eqn:Hw; simpl; try discriminate.
+      intro H. injection H as Hv He.
+      destruct (rat_fn_sin_exact _ _ _ Hw He) as [Hz _].
+      apply Qmult_zero_r_inv in Hz; [|exact pi_model_pos].
+      rewrite (tbl_zero _ Hz) in Ht. discriminate.
+  Qed.
+End TableSound.
+
 Theorem sin_pi_exact_sound : forall Fo n v,
   real_sin Fo (RPi n) = Ok (mkEx v true) -> real_val v = sin (Q2R n * PI).
-Proof.
-  intros Fo n v. unfold real_sin.
-  set (neg := qlt n 0). set (n' := if neg then (- n)%Q else n).
-  assert (Hn' : Q2R n' = if neg then - Q2R n else Q2R n).
-  { unfold n'. destruct neg; [apply Q2R_opp|reflexivity]. }
-  destruct (sin_pi_table n') as [t|] eqn:Ht.
-  - intro H. injection H as <-. apply sin_pi_table_sound in Ht.
-    rewrite Hn' in Ht. simpl. destruct neg.
-    + rewrite Q2R_opp, Ht. replace (- Q2R n * PI) with (- (Q2R n * PI)) by lra.
-      rewrite sin_neg. lra.
-    + exact Ht.
-  - destruct (rat_fn Fo Fsin (n' * pi_model)) as [w| |] eqn:Hw; simpl; try discriminate.
-    intro H. injection H as Hv He.
-    destruct (rat_fn_sin_exact _ _ _ Hw He) as [Hz _].
-    apply Qmult_zero_r_inv in Hz; [|exact pi_model_pos].
-    rewrite (sin_pi_table_zero _ Hz) in Ht. discriminate.
-Qed.
+Proof. exact (sin_with_pi_exact_sound sin_pi_table sin_pi_table_sound sin_pi_table_zero). Qed.
+
+Theorem sin_old_pi_exact_sound : forall Fo n v,
+  real_sin_old Fo (RPi n) = Ok (mkEx v true) -> real_val v = sin (Q2R n * PI).
+Proof. exact (sin_with_pi_exact_sound sin_pi_table_old sin_pi_table_old_sound sin_pi_table_old_zero). Qed.
 
 Theorem sin_simple_exact_sound : forall Fo s v,
   real_sin Fo (RSimple s) = Ok (mkEx v true) -> real_val v = sin (Q2R s).
 Proof.
-  intros Fo s v. unfold real_sin.
+  intros Fo s v. unfold real_sin, real_sin_with.
   destruct (rat_fn Fo Fsin s) as [w| |] eqn:Hw; simpl; try discriminate.
   intro H. injection H as Hv He.
   destruct (rat_fn_sin_exact _ _ _ Hw He) as [Hz Hw0].
@@ -244,30 +335,52 @@ Proof.
     rewrite Pos2Z.inj_mul, Ha, Hb. ring.
 Qed.
 
+Lemma cos_unfold : forall Fo r v,
+  real_cos Fo r = Ok (mkEx v true) ->
+  real_sin Fo (Model.cos_shift r) = Ok (mkEx v true) /\ snd (cos_shift_ex r) = true.
+Proof.
+  intros Fo r v. unfold real_cos.
+  destruct (real_sin Fo (Model.cos_shift r)) as [w| |]; simpl; try discriminate.
+  intro H. injection H as Hv He. apply Bool.andb_true_iff in He. destruct He as [He1 He2].
+  split; [|exact He2]. destruct w as [wv wb]. simpl in *. subst. reflexivity.
+Qed.
+
 Theorem cos_pi_exact_sound : forall Fo n v,
   real_cos Fo (RPi n) = Ok (mkEx v true) -> real_val v = cos (Q2R n * PI).
 Proof.
-  intros Fo n v. unfold real_cos, Model.cos_shift. simpl real_is_zero.
-  destruct (Qnum n =? 0)%Z eqn:Hz.
-  - intro H. apply sin_pi_exact_sound in H. rewrite H.
+  intros Fo n v H. apply cos_unfold in H. destruct H as [H _].
+  unfold Model.cos_shift, cos_shift_ex in H. simpl real_is_zero in H.
+  destruct (Qnum n =? 0)%Z eqn:Hz; simpl fst in H.
+  - apply sin_pi_exact_sound in H. rewrite H.
     rewrite (real_is_zero_spec _ Hz), Q2R_half.
     rewrite cos_sin. f_equal. lra.
-  - intro H. apply sin_pi_exact_sound in H. rewrite H.
+  - apply sin_pi_exact_sound in H. rewrite H.
     rewrite (Qeq_eqR _ _ (rat_add_correct n (1 # 2))).
     rewrite Q2R_plus, Q2R_half. rewrite cos_sin. f_equal. lra.
 Qed.
 
-(* a rational argument: exact only at 0 -- or when x + pi_model/2 happens
-   to be 0, which is the one unsound case *)
-Theorem cos_simple_exact_except_known : forall Fo a v,
-  ~ (a + (1 # 2) * pi_model == 0)%Q ->
+(* a rational argument: since fix commit bd3b9a9 the flag of x + pi_model/2
+   is kept, so the result is exact only at x = 0 -- sound without exception *)
+Theorem cos_simple_exact_sound : forall Fo a v,
   real_cos Fo (RSimple a) = Ok (mkEx v true) -> real_val v = cos (Q2R a).
 Proof.
-  intros Fo a v Hk. unfold real_cos, Model.cos_shift. simpl real_is_zero.
-  destruct (Qnum a =? 0)%Z eqn:Hz.
-  - intro H. apply sin_pi_exact_sound in H. rewrite H.
+  intros Fo a v H. apply cos_unfold in H. destruct H as [H Hf].
+  unfold Model.cos_shift, cos_shift_ex in *. simpl real_is_zero in *.
+  destruct (Qnum a =? 0)%Z eqn:Hz; simpl fst in H; simpl snd in Hf; [|discriminate].
+  apply sin_pi_exact_sound in H. rewrite H.
+  rewrite (real_is_zero_spec _ Hz), Q2R_half, cos_sin. f_equal. lra.
+Qed.
+
+(* the code before that commit: sound except at x = -pi_model/2 *)
+Theorem cos_old_simple_exact_except_known : forall Fo a v,
+  ~ (a + (1 # 2) * pi_model == 0)%Q ->
+  real_cos_old Fo (RSimple a) = Ok (mkEx v true) -> real_val v = cos (Q2R a).
+Proof.
+  intros Fo a v Hk. unfold real_cos_old, Model.cos_shift, cos_shift_ex. simpl real_is_zero.
+  destruct (Qnum a =? 0)%Z eqn:Hz; simpl fst.
+  - intro H. apply sin_old_pi_exact_sound in H. rewrite H.
     rewrite (real_is_zero_spec _ Hz), Q2R_half, cos_sin. f_equal. lra.
-  - intro H. unfold real_sin in H.
+  - intro H. unfold real_sin_old, real_sin_with in H.
     destruct (rat_fn Fo Fsin (rat_add a ((1 # 2) * pi_model))) as [w| |] eqn:Hw; simpl in H; try discriminate.
     injection H as Hv He.
     destruct (rat_fn_sin_exact _ _ _ Hw He) as [Hz0 _].
@@ -275,55 +388,15 @@ Proof.
 Qed.
 
 (* ------------------------------------------------------------------ *)
-(* completeness: every multiple of pi/6 whose sine is rational, up to the
-   usize cut-off, is answered from the table *)
-
-Lemma Qred_inject_Z : forall a : Z, Qred (inject_Z a) = inject_Z a.
-Proof.
-  intro a. unfold Qred, inject_Z.
-  pose proof (Z.ggcd_gcd a 1) as Hg. pose proof (Z.ggcd_correct_divisors a 1) as Hd.
-  destruct (Z.ggcd a 1) as [g [aa bb]]. simpl in Hg.
-  rewrite Z.gcd_1_r in Hg. subst g. destruct Hd as [Ha Hb].
-  rewrite !Z.mul_1_l in *. subst aa. rewrite <- Hb. reflexivity.
-Qed.
+(* completeness: EVERY multiple of pi/6 whose sine is rational is answered
+   from the table (no size limit since fix commit 06c1b45) *)
 
 Definition good_residue (k : N) : bool :=
   negb ((k mod 12 =? 2) || (k mod 12 =? 4) || (k mod 12 =? 8) || (k mod 12 =? 10))%N.
 
-Lemma try_as_usize_hit : forall n (k : N),
-  (k < 2 ^ 64)%N -> (n == Z.of_N k # 6)%Q ->
-  rat_try_as_usize (n * 6) = Some k.
+Lemma sin_table_of_hit : forall k, good_residue k = true -> exists t, sin_table_of k = Some t.
 Proof.
-  intros n k Hk Hn. unfold rat_try_as_usize.
-  assert (Hnum : Qnum (n * 6) = (Qnum n * 6)%Z) by reflexivity.
-  assert (Hden : Qden (n * 6) = Qden n) by (simpl; apply Pos.mul_1_r).
-  rewrite Hnum, Hden.
-  assert (Hnn : (0 <= Qnum n * 6)%Z).
-  { unfold Qeq in Hn. simpl in Hn. nia. }
-  destruct (Z.ltb_spec (Qnum n * 6) 0) as [Hc|_]; [lia|].
-  set (N6 := Z.to_N (Qnum n * 6)). set (d := N.pos (Qden n)).
-  assert (HN6 : N6 = (k * d)%N).
-  { unfold N6, d. unfold Qeq in Hn. simpl in Hn.
-    apply N2Z.inj. rewrite Z2N.id by lia. rewrite N2Z.inj_mul. simpl Z.of_N at 2. lia. }
-  assert (Hd0 : d <> 0%N) by (unfold d; discriminate).
-  assert (Hk' : (k < usize_limit)%N) by exact Hk.
-  destruct (N.eqb_spec d 1) as [Hd1|Hd1].
-  - rewrite HN6, Hd1, N.mul_1_r. destruct (N.ltb_spec k usize_limit); [reflexivity|lia].
-  - assert (Hgcd : N.gcd N6 d = d).
-    { rewrite HN6. rewrite N.gcd_comm, (N.mul_comm k d). apply N.gcd_mul_diag_l. apply N.le_0_l. }
-    rewrite Hgcd. rewrite N.div_same by exact Hd0.
-    simpl (negb (1 =? 1)%N). cbv iota.
-    rewrite HN6, N.div_mul by exact Hd0.
-    destruct (N.ltb_spec k usize_limit); [reflexivity|lia].
-Qed.
-
-Lemma sin_pi_table_hit : forall n (k : N),
-  (k < 2 ^ 64)%N -> (n == Z.of_N k # 6)%Q -> good_residue k = true ->
-  exists t, sin_pi_table n = Some t.
-Proof.
-  intros n k Hk Hn Hg. unfold sin_pi_table.
-  rewrite (try_as_usize_hit n k Hk Hn).
-  unfold good_residue in Hg.
+  intros k Hg. unfold sin_table_of. unfold good_residue in Hg.
   pose proof (mod12_cases k) as Hlt.
   assert (Hm6 : (k mod 6 = (k mod 12) mod 6)%N).
   { change 12%N with (6 * 2)%N. rewrite N.mod_mul_r by discriminate.
@@ -336,27 +409,68 @@ Proof.
   repeat (destruct Hr as [Hr|Hr]); subst r; try discriminate Hg; vm_compute; eexists; reflexivity.
 Qed.
 
+Lemma six_times : forall n (k : N), (n == Z.of_N k # 6)%Q -> (n * 6 == inject_Z (Z.of_N k))%Q.
+Proof. intros n k Hn. rewrite Hn. unfold Qeq, inject_Z. simpl. lia. Qed.
+
+Lemma sin_pi_table_hit : forall n (k : N),
+  (n == Z.of_N k # 6)%Q -> good_residue k = true -> exists t, sin_pi_table n = Some t.
+Proof.
+  intros n k Hn Hg. unfold sin_pi_table.
+  rewrite (rat_as_nat_hit _ k (six_times n k Hn)).
+  rewrite rat_try_as_usize_small by (pose proof (mod12_cases k); lia).
+  rewrite sin_table_of_mod12. apply sin_table_of_hit. exact Hg.
+Qed.
+
+Lemma sin_pi_table_old_hit : forall n (k : N), (k < 2 ^ 64)%N ->
+  (n == Z.of_N k # 6)%Q -> good_residue k = true -> exists t, sin_pi_table_old n = Some t.
+Proof.
+  intros n k Hk Hn Hg. unfold sin_pi_table_old, rat_try_as_usize.
+  rewrite (rat_as_nat_hit _ k (six_times n k Hn)).
+  destruct (N.ltb_spec k usize_limit) as [_|Hc]; [|unfold usize_limit in Hc; lia].
+  apply sin_table_of_hit. exact Hg.
+Qed.
+
+Lemma abs_multiple : forall (z : Z) (n : Q), (n == z # 6)%Q ->
+  ((if qlt n 0 then (- n)%Q else n) == Z.of_N (Z.abs_N z) # 6)%Q.
+Proof.
+  intros z n Hn. rewrite N2Z.inj_abs_N. destruct (qlt n 0) eqn:Hneg.
+  - apply qlt_spec in Hneg. rewrite Hn in *.
+    unfold Qlt in Hneg. simpl in Hneg. unfold Qeq. simpl. lia.
+  - assert (~ (n < 0)%Q) by (intro Hc; apply qlt_spec in Hc; congruence).
+    rewrite Hn in *. unfold Qlt in H. simpl in H. unfold Qeq. simpl. lia.
+Qed.
+
 Theorem sin_special_lemma : forall Fo (z : Z) (n : Q),
-  (Z.abs z < 2 ^ 64)%Z -> (n == z # 6)%Q ->
-  good_residue (Z.abs_N z) = true ->
+  (n == z # 6)%Q -> good_residue (Z.abs_N z) = true ->
   exists v, real_sin Fo (RPi n) = Ok (mkEx (RSimple v) true)
             /\ Q2R v = sin (IZR z * PI / 6).
 Proof.
-  intros Fo z n Hz Hn Hg.
+  intros Fo z n Hn Hg.
   assert (Hex : exists v, real_sin Fo (RPi n) = Ok (mkEx (RSimple v) true)).
-  { unfold real_sin.
-    set (neg := qlt n 0). set (n' := if neg then (- n)%Q else n).
-    assert (Hn' : (n' == Z.of_N (Z.abs_N z) # 6)%Q).
-    { unfold n'. rewrite N2Z.inj_abs_N. destruct neg eqn:Hneg; unfold neg in Hneg.
-      - apply qlt_spec in Hneg. rewrite Hn in *.
-        unfold Qlt in Hneg. simpl in Hneg. unfold Qeq. simpl. lia.
-      - assert (~ (n < 0)%Q) by (intro Hc; apply qlt_spec in Hc; congruence).
-        rewrite Hn in *. unfold Qlt in H. simpl in H. unfold Qeq. simpl. lia. }
-    destruct (sin_pi_table_hit n' (Z.abs_N z)) as [t Ht]; try assumption.
-    { apply N2Z.inj_lt. rewrite N2Z.inj_abs_N. exact Hz. }
+  { unfold real_sin, real_sin_with.
+    destruct (sin_pi_table_hit _ (Z.abs_N z) (abs_multiple z n Hn) Hg) as [t Ht].
     rewrite Ht. eexists. reflexivity. }
   destruct Hex as [v Hv]. exists v. split; [exact Hv|].
   apply sin_pi_exact_sound in Hv. simpl in Hv. rewrite Hv.
+  rewrite (Qeq_eqR _ _ Hn). unfold Q2R. simpl. f_equal. lra.
+Qed.
+
+(* the code before the commit needed |z| < 2^64 *)
+Theorem sin_old_special_lemma : forall Fo (z : Z) (n : Q),
+  (Z.abs z < 2 ^ 64)%Z -> (n == z # 6)%Q -> good_residue (Z.abs_N z) = true ->
+  exists v, real_sin_old Fo (RPi n) = Ok (mkEx (RSimple v) true)
+            /\ Q2R v = sin (IZR z * PI / 6).
+Proof.
+  intros Fo z n Hz Hn Hg.
+  assert (Hex : exists v, real_sin_old Fo (RPi n) = Ok (mkEx (RSimple v) true)).
+  { unfold real_sin_old, real_sin_with.
+    destruct (sin_pi_table_old_hit (if qlt n 0 then (- n)%Q else n) (Z.abs_N z)) as [t Ht].
+    - apply N2Z.inj_lt. rewrite N2Z.inj_abs_N. exact Hz.
+    - apply abs_multiple. exact Hn.
+    - exact Hg.
+    - rewrite Ht. eexists. reflexivity. }
+  destruct Hex as [v Hv]. exists v. split; [exact Hv|].
+  apply sin_old_pi_exact_sound in Hv. simpl in Hv. rewrite Hv.
   rewrite (Qeq_eqR _ _ Hn). unfold Q2R. simpl. f_equal. lra.
 Qed.
 
@@ -369,27 +483,26 @@ Proof.
 Qed.
 
 Theorem cos_special_lemma : forall Fo (z : Z),
-  (Z.abs (z + 3) < 2 ^ 64)%Z -> good_residue (Z.abs_N (z + 3)) = true ->
+  good_residue (Z.abs_N (z + 3)) = true ->
   exists v, real_cos Fo (RPi (z # 6)) = Ok (mkEx (RSimple v) true)
             /\ Q2R v = cos (IZR z * PI / 6).
 Proof.
-  intros Fo z Hz Hg.
+  intros Fo z Hg.
   assert (Hex : exists v, real_cos Fo (RPi (z # 6)) = Ok (mkEx (RSimple v) true)).
-  { unfold real_cos, Model.cos_shift. simpl real_is_zero.
-    destruct (z =? 0)%Z eqn:Hz0.
+  { unfold real_cos, Model.cos_shift, cos_shift_ex. simpl real_is_zero.
+    destruct (z =? 0)%Z eqn:Hz0; simpl fst; simpl snd.
     - apply Z.eqb_eq in Hz0. subst z.
-      destruct (sin_special_lemma Fo 3 (1 # 2)%Q ltac:(simpl; lia) ltac:(reflexivity) ltac:(reflexivity))
+      destruct (sin_special_lemma Fo 3 (1 # 2)%Q ltac:(reflexivity) ltac:(reflexivity))
         as [v [Hv _]].
-      exists v. exact Hv.
+      rewrite Hv. exists v. reflexivity.
     - rewrite rat_add_sixth_half.
-      destruct (sin_special_lemma Fo (z + 3) (z + 3 # 6)%Q Hz ltac:(reflexivity) Hg) as [v [Hv _]].
-      exists v. exact Hv. }
+      destruct (sin_special_lemma Fo (z + 3) (z + 3 # 6)%Q ltac:(reflexivity) Hg) as [v [Hv _]].
+      rewrite Hv. exists v. reflexivity. }
   destruct Hex as [v Hv]. exists v. split; [exact Hv|].
   apply cos_pi_exact_sound in Hv. simpl in Hv. rewrite Hv.
   unfold Q2R. simpl. f_equal. lra.
 Qed.
 
-(* multiples of pi/2: always exact, both functions *)
 Lemma good_residue_mul3 : forall k : N, good_residue (3 * k) = true.
 Proof.
   intro k. unfold good_residue.
